@@ -652,7 +652,7 @@ class RefGen:
         self.n += 1
         return 'r%d' % self.n
 
-    def gen(self, depth, env):
+    def gen(self, depth, env, bound=False):
         """env: {name: descended since its nearest definition}"""
         rng = self.rng
         usable = [n for n, d in env.items() if d]
@@ -661,19 +661,27 @@ class RefGen:
             self.uses += 1
             return ('use', rng.choice(usable))
         if depth <= 0 or r < 0.4:
-            return ('val', self.tag())
+            # (a reader may stand where nothing is bound lexically: it sees what is bound DYNAMICALLY, e.g. on the way to a
+            # recursive reference - or nothing)
+            return ('readd',) if rng.random() < (0.5 if bound else 0.25) else ('val', self.tag())
         if r < 0.6:
             name = rng.choice(['x', 'y'])
             if name in env:
                 self.shadow += 1
             self.defs += 1
-            return ('def', name, self.gen(depth - 1, dict(env, **{name: False})))
-        if r < 0.8:
-            return ('dict', {'v': ('path-v',), 't': ('val', self.tag()), 'a': self.gen(depth - 1, env), 'b': self.gen(depth - 1, env)})
+            return ('def', name, self.gen(depth - 1, dict(env, **{name: False}), bound))
+        if r < 0.65:
+            return ('dict', {'v': ('path-v',), 't': ('val', self.tag()), 'a': self.gen(depth - 1, env, bound), 'b': self.gen(depth - 1, env, bound)})
+        if r < 0.82:
+            # a binding made INSIDE a Ref body (visible to what follows it there, also through a bare Ref reached from there),
+            # and a reader of that name
+            if not bound or rng.random() < 0.3:
+                return ('bind', self.tag(), self.gen(depth - 1, env, True))
+            return ('readd',)
         down = {n: True for n in env}
         if r < 0.9:
-            return ('kids', self.gen(depth - 1, down))
-        return ('first', self.gen(depth - 1, down))
+            return ('kids', self.gen(depth - 1, down, bound))
+        return ('first', self.gen(depth - 1, down, bound))
 
 
 def ref_build(node):
@@ -690,6 +698,10 @@ def ref_build(node):
         return {key: ref_build(v) for key, v in node[1].items()}
     if k == 'kids':
         return ('kids', [ref_build(node[1])])
+    if k == 'bind':
+        return (S(d=Val(node[1])), ref_build(node[2]))
+    if k == 'readd':
+        return Coalesce(S.d, default='unbound')
     return Coalesce(('kids', T[0], ref_build(node[1])), default='no-kid')
 
 
@@ -697,26 +709,35 @@ class _Diverges(Exception):
     pass
 
 
-def ref_eval(node, target, env, stats):
+def ref_eval(node, target, env, stats, d='unbound'):
+    """d: the value the name `d` is bound to at this point of the evaluation (bindings follow the EVALUATION: a bare Ref is
+    evaluated where it stands, with everything bound on the way there)"""
     k = node[0]
     if k == 'def':
-        return ref_eval(node[2], target, dict(env, **{node[1]: node[2]}), stats)
+        return ref_eval(node[2], target, dict(env, **{node[1]: node[2]}), stats, d)
     if k == 'use':
         stats[0] += 1
         if stats[0] > 400:
             raise _Diverges()
-        return ref_eval(env[node[1]], target, env, stats)
+        return ref_eval(env[node[1]], target, env, stats, d)
     if k == 'val':
         return node[1]
     if k == 'path-v':
         return target['v']
+    if k == 'bind':
+        stats[1] += 1
+        return ref_eval(node[2], target, env, stats, node[1])
+    if k == 'readd':
+        if d != 'unbound':
+            stats[2] += 1
+        return d
     if k == 'dict':
-        return {key: ref_eval(v, target, env, stats) for key, v in node[1].items()}
+        return {key: ref_eval(v, target, env, stats, d) for key, v in node[1].items()}
     if k == 'kids':
-        return [ref_eval(node[1], kid, env, stats) for kid in target['kids']]
+        return [ref_eval(node[1], kid, env, stats, d) for kid in target['kids']]
     if not target['kids']:
         return 'no-kid'
-    return ref_eval(node[1], target['kids'][0], env, stats)
+    return ref_eval(node[1], target['kids'][0], env, stats, d)
 
 
 def ref_describe(node):
@@ -731,6 +752,10 @@ def ref_describe(node):
         return "'v'"
     if k == 'dict':
         return '{%s}' % ', '.join('%s: %s' % (key, ref_describe(v)) for key, v in node[1].items())
+    if k == 'bind':
+        return '(S(d=%s), %s)' % (node[1], ref_describe(node[2]))
+    if k == 'readd':
+        return 'S.d'
     return '%s(%s)' % (k, ref_describe(node[1]))
 
 
@@ -740,7 +765,7 @@ def ref_cases(col, rng, n):
         name = rng.choice(['x', 'y'])
         node = ('def', name, g.gen(rng.randint(2, 5), {name: False}))
         target = gen_ref_tree(rng, 3)
-        stats = [0]
+        stats = [0, 0, 0]
         try:
             want = ref_eval(node, target, {}, stats)
         except (_Diverges, RecursionError):
@@ -763,6 +788,7 @@ def ref_cases(col, rng, n):
                 return
         col.count('ref_programs')
         col.count('ref_resolutions_in_reference', stats[0])
+        col.count('ref_programs_reading_a_binding_made_in_a_ref_body', 1 if stats[2] else 0)
         if g.shadow and stats[0]:
             col.count('ref_programs_with_shadowing')
         if snapshot(target) != before:
@@ -776,7 +802,8 @@ def run(ctx):
     col.require('reader_observations', 1000)
     col.require('frame_observations', 5000)
     col.require('ref_resolutions_in_reference', 500)
-    col.require('ref_programs_with_shadowing', 50)
+    col.require('ref_programs_with_shadowing', 30)
+    col.require('ref_programs_reading_a_binding_made_in_a_ref_body', 100)
     try:
         if ctx.shard == 0:
             systematic(col, rng, tracer)
@@ -786,6 +813,6 @@ def run(ctx):
         for i in range(ctx.n(6000, 40000)):
             one_case(col, rng, tracer)
         tracer.uninstall()
-        ref_cases(col, rng, ctx.n(1500, 10000))
+        ref_cases(col, rng, ctx.n(4000, 15000))
     finally:
         tracer.uninstall()
